@@ -664,9 +664,26 @@ func (w *World) opMeltQuote(op Op) *Event {
 		kind = "ext"
 	}
 	var request, hash, target string
-	var msat uint64
+	var msat, forgedMsat uint64
 	amt := op.Amt
 	switch kind {
+	case "forged":
+		// an invoice made by somebody else that carries the payment hash of one of the mint's own invoices and another amount
+		if q := w.Reg.MintQ[op.Q]; q != nil {
+			fm := op.Msat
+			if fm == 0 || fm == q.Amt*1000 {
+				fm = 1000
+				if fm == q.Amt*1000 {
+					fm = 2000 // the forged amount always differs from the mint quote's
+				}
+			}
+			req, err := lnmodel.ForgeInvoice(fm, q.Hash)
+			if err != nil {
+				panic(err)
+			}
+			request, hash, target, amt = req, q.Hash, op.Q, fm/1000
+			forgedMsat = fm
+		}
 	case "int", "mppint":
 		if q := w.Reg.MintQ[op.Q]; q != nil {
 			request, hash, target, amt = q.Request, q.Hash, op.Q, q.Amt
@@ -720,6 +737,9 @@ func (w *World) opMeltQuote(op Op) *Event {
 	invMsat := 0
 	if inv := w.Net.InvoiceOf(hash); inv != nil {
 		invMsat = int(inv.AmountMsat)
+	}
+	if forgedMsat != 0 {
+		invMsat = int(forgedMsat)
 	}
 	return w.emit("meltquote", map[string]any{"kind": kind, "amt": a, "big": bg, "target": target, "msat": int(msat), "invmsat": invMsat, "unit": unit}, r)
 }
